@@ -164,14 +164,21 @@ def gen_hist(tier, seed, out):
     any history when the cache is keyed by expression + args + kwargs; TLC must find the stale
     result for every weaker key) -> the histories to replay on the real mappers."""
     import concurrent.futures as cf
-    with cf.ThreadPoolExecutor(max_workers=5) as ex:
+    with cf.ThreadPoolExecutor(max_workers=6) as ex:
         main = ex.submit(kit.run_tlc, "C04_Hist", f"C04_Hist_{tier}", workers=6)
         negs = [ex.submit(kit.run_tlc, "C04_Hist", f"C04_Hist_neg_{n}", workers=1, heap="1g")
                 for n in HIST_NEG]
+        # thorough: the complete state graph of ALL histories of <= 3 calls (model check only)
+        free = ex.submit(kit.run_tlc, "C04_Hist", "C04_Hist_free", workers=4) if tier == "thorough" else None
         res = main.result()
         nres = [f.result() for f in negs]
+        fres = free.result() if free else None
     kit.require_clean(res, "C04_Hist (histories on one memoising mapper)")
     out.add_tlc(res)
+    if fres is not None:
+        kit.require_clean(fres, "C04_Hist (all histories of <= 3 calls)")
+        out.add_tlc(fres)
+        out.extra["history_model_states_all_histories"] = fres.distinct
     for n, r in zip(HIST_NEG, nres):
         if "EveryCallIsTheMeaning" not in r.invariant_violated:
             raise kit.MachineryError(f"C04_Hist negative control {n}: TLC did not find the stale result")
